@@ -56,6 +56,10 @@ func C17handle(p *load.Program, run *report.Run) {
 				if strings.Contains(n, "sync/atomic.Pointer[") && (strings.HasSuffix(n, ".CompareAndSwap") || strings.HasSuffix(n, ".Store") || strings.HasSuffix(n, ".Swap")) {
 					pubs = append(pubs, c)
 				}
+				// a table shared by all circuits publishes what it is handed
+				if n == "(*sync.Map).LoadOrStore" || n == "(*sync.Map).Store" {
+					pubs = append(pubs, c)
+				}
 			}
 		}
 		run.Count("pool-publications", len(pubs))
@@ -65,6 +69,38 @@ func C17handle(p *load.Program, run *report.Run) {
 		for _, pub := range pubs {
 			// the published object: the last pointer argument
 			obj := pub.Call.Args[len(pub.Call.Args)-1]
+			if mi, ok := obj.(*ssa.MakeInterface); ok {
+				obj = mi.X
+			}
+			// an object taken out of the shared table was published by the table
+			fromTable := false
+			{
+				v := obj
+				for d := 0; d < 4; d++ {
+					switch t := v.(type) {
+					case *ssa.TypeAssert:
+						v = t.X
+						continue
+					case *ssa.Extract:
+						v = t.Tuple
+						continue
+					case *ssa.Phi:
+						if len(t.Edges) > 0 {
+							v = t.Edges[len(t.Edges)-1]
+							continue
+						}
+					case *ssa.Call:
+						if cal := t.Call.StaticCallee(); cal != nil && (cal.String() == "(*sync.Map).LoadOrStore" || cal.String() == "(*sync.Map).Load") {
+							fromTable = true
+						}
+					}
+					break
+				}
+			}
+			if fromTable {
+				run.OK("publish-after-init", key+"/from the shared table", p.Rel(pub.Pos()), "the pool remembered on the circuit was taken out of the shared table, which published it")
+				continue
+			}
 			al, _ := obj.(*ssa.Alloc)
 			// cells captured by closures stored into the object
 			cells := map[ssa.Value]string{}
